@@ -4090,7 +4090,8 @@ type yty =
 | YHashed of yty
 | YRefRaw of yty
 | YNoLib of yty
-| YPeek of nat * yty * yty
+| YPeek of nat * nat * n * yty * yty
+| YRefRawOpt of yty
 | YOpenStruct of yty list
 
 val sub_slice : xtree -> bool -> ys option
